@@ -147,7 +147,7 @@ structure Filter where
   op : Cmp
   value : Rat
   isInt : Bool        -- `int(value)` succeeded (else `float(value)`)
-deriving Repr
+deriving Repr, DecidableEq
 
 /-- ASCII `\w` -/
 def isWordChar (c : Char) : Bool := c.isAlphanum || c == '_'
@@ -319,36 +319,41 @@ def frequencyArray (r : RecordM) (tag : Option String) :
         else if vs.length ≠ n then .error .freqLength
         else .ok (vs, vs.any Option.isNone, f.isInt)
 
+/-- the filter step of `from_variant_record`: the `keep` array (with `keep[0]` forced to True) and
+    `mask_reference_allele` — a failing reference is masked, not removed -/
+def filterKeep (r : RecordM) (filter : Option String) : Except Err (List Bool × Bool) :=
+  match filter with
+  | none => .ok (List.replicate (r.nAlts + 1) true, r.refMasked)
+  | some fs =>
+    match parseAlleleFilter fs with
+    | .error e => .error e
+    | .ok f =>
+      match applyAlleleFilter r f.field f.op f.value with
+      | .error e => .error e
+      | .ok keep =>
+        if keep.headD true then .ok (keep, r.refMasked) else .ok (true :: keep.tail, true)
+
+/-- masking, sub-setting and normalisation of the frequency array -/
+def finishPrior (keep : List Bool) (maskRef : Bool) (vals : List (Option Rat))
+    (objDtype isInt : Bool) : Except Err LocusPriorM :=
+  let vals := if maskRef then vals.set 0 (some 0) else vals
+  let kept := select vals keep
+  if kept.any Option.isNone then .error .typeError          -- object array: `float + None`
+  else
+    let raw := kept.map (fun x => x.getD 0)
+    if isInt && !objDtype then
+      (if 0 < sumRat raw then .error .intDivide else .error .intNan)
+    else .ok { keep := keep, maskRef := maskRef, raw := raw, freqs := normalise raw }
+
 /-- `LocusPrior.from_variant_record` (mask / filter / frequency part) -/
 def locusPrior (r : RecordM) (tag : Option String) (filter : Option String) :
     Except Err LocusPriorM :=
-  let n := r.nAlts + 1
-  -- filter: a failing reference is masked, not removed
-  let filt : Except Err (List Bool × Bool) :=
-    match filter with
-    | none => .ok (List.replicate n true, r.refMasked)
-    | some fs =>
-      match parseAlleleFilter fs with
-      | .error e => .error e
-      | .ok f =>
-        match applyAlleleFilter r f.field f.op f.value with
-        | .error e => .error e
-        | .ok keep =>
-          if keep.headD true then .ok (keep, r.refMasked) else .ok (true :: keep.tail, true)
-  match filt with
+  match filterKeep r filter with
   | .error e => .error e
   | .ok (keep, maskRef) =>
     match frequencyArray r tag with
     | .error e => .error e
-    | .ok (vals, objDtype, isInt) =>
-      let vals := if maskRef then vals.set 0 (some 0) else vals
-      let kept := select vals keep
-      if kept.any Option.isNone then .error .typeError          -- object array: `float + None`
-      else
-        let raw := kept.map (fun x => x.getD 0)
-        if isInt && !objDtype then
-          (if 0 < sumRat raw then .error .intDivide else .error .intNan)
-        else .ok { keep := keep, maskRef := maskRef, raw := raw, freqs := normalise raw }
+    | .ok (vals, objDtype, isInt) => finishPrior keep maskRef vals objDtype isInt
 
 /-! ## C16 — masking, sub-setting, relabelling in `call_sample_genotypes` -/
 
@@ -370,7 +375,7 @@ deriving Repr, DecidableEq
 
 /-- invalid-scenario short circuit of `call.py` / `call_pedigree.py` -/
 def callScenario (P : LocusPriorM) : Scenario :=
-  if callLabels P == [] then .noa
+  if (callLabels P).isEmpty then .noa
   else if P.freqs.isNone then .af0
   else .valid
 
